@@ -30,6 +30,15 @@ pub fn generate(
         }
 
         remove_param_bounds(&mut generics);
+
+        // NOTE: Order params the same way `gen_inherent_self_ty_args` orders the arguments
+        let mut params = generics.params.into_iter().collect::<Vec<_>>();
+        params.sort_by_key(|param| {
+            let is_lifetime = matches!(param, syn::GenericParam::Lifetime(_));
+            (!is_lifetime, get_param_ident(param).clone())
+        });
+        generics.params = params.into_iter().collect();
+
         let impl_generics = generics.split_for_impl().0;
 
         syn::parse_quote! {
